@@ -92,7 +92,7 @@ def gen_case(ctx, stream, idx):
         ir = irgen.rand_ir(r, nparams=r.randint(1, 5), type_kinds=("int", "float", "str", "bool", "optional", "literal",
                                                                     "list", "union"),
                            default_kinds=("absent", "int", "negint", "zero", "float", "negfloat", "bool", "str", "strspace"),
-                           doc_kinds=("plain", "trigger", "stop"), with_return=r.random() < 0.5)
+                           doc_kinds=("plain", "trigger", "stop", "punct"), with_return=r.random() < 0.5)
     return ir
 
 
